@@ -391,3 +391,24 @@ End Sim.
 Arguments sim_wf {O d} st.
 Arguments iter_motion {O d} motion k p.
 Arguments freeze_successes {O m} ops outs.
+
+(* ---- the grid initialiser on particle sets with any number of state rows ---- *)
+Section GridRows.
+Variable O : MatOps.
+Notation t := (T (sc O)).
+
+(* on a 4-row set the two checks reduce to the particle count: the model the grid theorems are about *)
+Lemma grid_rows_four (xinf xsup yinf ysup : t) nx ny np (st : M O 4 np) (w : M O np 1) :
+  grid_initialize_rows xinf xsup yinf ysup nx ny st w = grid_initialize xinf xsup yinf ysup nx ny st w.
+Proof. unfold grid_initialize_rows, grid_initialize. destruct (np =? nx * ny); reflexivity. Qed.
+
+(* refusal: exactly a wrong particle count or a state that is not (x, vx, y, vy) *)
+Lemma grid_rows_refusal (xinf xsup yinf ysup : t) nx ny r np (st : M O r np) (w : M O np 1) :
+  grid_initialize_rows xinf xsup yinf ysup nx ny st w = None <-> (np <> nx * ny \/ r <> 4).
+Proof.
+unfold grid_initialize_rows.
+destruct (Nat.eqb_spec np (nx * ny)); simpl.
+- destruct (Nat.eqb_spec r 4); simpl; split; try discriminate; try tauto.
+- split; auto.
+Qed.
+End GridRows.
